@@ -281,11 +281,13 @@ func replayCase(cs Case) string {
 			if fc.name == cs.Type && cs.Value < len(fc.values) {
 				zoneNotCarried.Store(strings.Contains(fc.name, "format:unix"))
 				defer zoneNotCarried.Store(false)
-				return roundTrip(fc.values[cs.Value], fc.opts, false)
+				return roundTrip(fc.values[cs.Value], fc.opts, strings.Contains(fc.name, "OmitZero"))
 			}
 		}
 	case "wide":
 		return wideOne(cs.Index)
+	case "tag-leak":
+		return leakOne(cs.Index, cs.OptSet, cs.Depth == 1, cs.Value)
 	}
 	return ""
 }
@@ -348,6 +350,7 @@ func Run(r *evid.Run) {
 	r.Sample(Case{Family: "universe", Type: typeuniv.Describe(ts[len(ts)/2]), Index: len(ts) / 2, Value: 1, OptSet: "default", Depth: depth})
 	r.Bound("type universe: %d types (nesting depth 2; %d element types carried to the second level) x their value domains x %d option sets", len(ts), map[int]int{1: 16, 2: 24}[depth], len(sets))
 	formats(r)
+	tagLeaks(r)
 	wide(r)
 	float32RoundTrip(r)
 }
@@ -483,6 +486,9 @@ func wrap(st reflect.Type, vs []reflect.Value) []reflect.Value {
 }
 
 func formatCases(all bool) []formatCase {
+	if all {
+		return withExtraOptions(formatCases(false))
+	}
 	ft := jsonv2.ExperimentalSupportFormatTag(true)
 	det := jsonv2.Deterministic(true)
 	var out []formatCase
@@ -566,6 +572,21 @@ func mapsOf(vs []reflect.Value) []reflect.Value {
 	return out
 }
 
+// withExtraOptions repeats every format family under further symmetric option sets: a format tag must round-trip
+// whatever other options are in force on both sides.
+func withExtraOptions(cases []formatCase) []formatCase {
+	out := append([]formatCase(nil), cases...)
+	for _, fc := range cases {
+		if !strings.Contains(fc.name, "format:") {
+			continue
+		}
+		out = append(out, formatCase{fc.name + " +StringifyNumbers", fc.values, append(append([]jsonv2.Options{}, fc.opts...), jsonv2.StringifyNumbers(true))})
+		out = append(out, formatCase{fc.name + " +DefaultOptionsV1", fc.values, append([]jsonv2.Options{jsonv1.DefaultOptionsV1()}, fc.opts...)})
+		out = append(out, formatCase{fc.name + " +OmitZeroStructFields+FormatNilSliceAsNull", fc.values, append(append([]jsonv2.Options{}, fc.opts...), jsonv2.OmitZeroStructFields(true), jsonv2.FormatNilSliceAsNull(true))})
+	}
+	return out
+}
+
 func formats(r *evid.Run) {
 	cases := formatCases(true)
 	enum.Parallel(r, len(cases), func(w *enum.Worker) func(int) {
@@ -581,7 +602,7 @@ func formats(r *evid.Run) {
 			for vi, v := range fc.values {
 				cur = Case{Family: "format", Type: fc.name, Value: vi}
 				n++
-				if m := roundTrip(v, fc.opts, false); m != "" {
+				if m := roundTrip(v, fc.opts, strings.Contains(fc.name, "OmitZero")); m != "" {
 					cs := cur
 					cs.Detail = fmt.Sprintf("%v", v.Interface())
 					r.Violation(fmt.Sprintf("c04|format|%s|v%d", fc.name, vi), m, cs, func() bool { return replayCase(cs) != "" })
@@ -597,7 +618,7 @@ func formats(r *evid.Run) {
 		for vi, v := range fc.values {
 			r.Evaluations.Add(1)
 			r.Nontrivial.Add(1)
-			if m := roundTrip(v, fc.opts, false); m != "" {
+			if m := roundTrip(v, fc.opts, strings.Contains(fc.name, "OmitZero")); m != "" {
 				cs := Case{Family: "format", Type: fc.name, Value: vi, Detail: fmt.Sprintf("%v", v.Interface())}
 				r.Violation(fmt.Sprintf("c04|format|%s|v%d", fc.name, vi), m, cs, nil)
 			}
